@@ -220,12 +220,22 @@ pub fn spec(id: &str) -> Option<Spec> {
             real: vec!["every driver's new() and Drop, Dma::new/Drop, VirtQueue::new, OwningQueue::new/Drop", "MmioTransport / PciTransport / SomeTransport Drop (device reset)"],
             stubbed: vec!["devices: reference personalities per driver", "platform: SimHal with failure injection and release monitors", "process heap: global allocator wrapper (sim/src/heapwatch.rs)"],
         },
+        "C13" => Spec {
+            id: "C13",
+            level: "exploration",
+            rule: "bounds: real MmioTransport / PciTransport / SomeTransport, window sizes 0..256 bytes (PCI: capability present or absent), access types of 1, 2, 3, 4, 6, 8, 16 bytes, offsets boundary-biased up to usize::MAX (window-size, window-size+align, usize::MAX-k, powers of two), reads and writes; expected outcome computed in u128; torn reads: a configuration agent may install the next of up to 4 self-identifying configuration versions (and bump the generation) at every configuration access while blk capacity, vsock CID, console size, MAC and 9P mount tag are read over model / modern MMIO / PCI transports; non-trivial = an in-window access succeeded (bounds) / the configuration changed at least once during the read (torn)",
+            batches: vec![b("bounds", scen::c13::bounds, 10_000, 300_000), b("torn", scen::c13::torn, 10_000, 300_000)],
+            extras: vec![],
+            assumptions: vec!["legacy MMIO has no configuration generation: torn-read freedom is not claimed there", "the PCI transport rounds the window down to whole 32-bit words: accesses between the rounded and the real end may fail"],
+            real: vec!["MmioTransport / PciTransport / SomeTransport read_config_space, write_config_space, read_config_generation", "Transport::read_consistent", "read_config! users: VirtIOBlk::new, VirtIOSocket::new, VirtIOConsole::size, VirtIONetRaw::new, VirtIO9p::new"],
+            stubbed: vec!["device: register-level MMIO / PCI reference devices with a scheduler-controlled configuration agent"],
+        },
         _ => return None,
     };
     Some(s)
 }
 
-pub const ALL: &[&str] = &["C01", "C02", "C03", "C04", "C05", "C06", "C08", "C09", "C10", "C14", "C15", "C16", "C17", "C18", "C19", "C20"];
+pub const ALL: &[&str] = &["C01", "C02", "C03", "C04", "C05", "C06", "C08", "C09", "C10", "C13", "C14", "C15", "C16", "C17", "C18", "C19", "C20"];
 
 pub fn find_batch(prop: &str, batch: &str) -> Option<fn()> {
     spec(prop)?.batches.iter().find(|b| b.name == batch).map(|b| b.f)
